@@ -160,6 +160,12 @@ class Gen:
         vararg = (fresh(1) or [None])[0] if r.random() < .12 else None
         kwonly = fresh(r.choice([0, 0, 0, 1]))
         kwarg = (fresh(1) or [None])[0] if r.random() < .12 else None
+        if self.execd:
+            # *va is an (empty) tuple and **kwa an (empty) dict, not the inert value: never read them
+            if vararg:
+                vararg[0] = "va"
+            if kwarg:
+                kwarg[0] = "kwa"
         npos = len(posonly) + len(args)
         nd = min(npos, r.choice([0, 0, 1, 2]))
         return {"posonly": posonly, "args": args, "vararg": vararg, "kwonly": kwonly, "kwarg": kwarg,
@@ -290,6 +296,7 @@ class Render:
     def __init__(self, ids):
         self.ids = ids
         self.lines = []
+        self.spans = {}          # id(stmt) -> (header line, last line)
 
     # --- Gallina atoms
     def N(self, n):
@@ -436,6 +443,13 @@ class Render:
         return self.L(out)
 
     def stmt(self, s, ind):
+        first = len(self.lines) + 1
+        g = self.stmt1(s, ind)
+        hdr = first + (len(s[2]) if s[0] == "def" else len(s[3]) if s[0] == "class" else 0)
+        self.spans[id(s)] = (hdr, len(self.lines))
+        return g
+
+    def stmt1(self, s, ind):
         t = s[0]
         if t == "expr":
             p, g = self.expr(s[1])
@@ -536,7 +550,7 @@ def render(prog, ids):
     """-> (python source, Gallina term of type program)"""
     r = Render(ids)
     g = r.block(prog, 0)
-    return "\n".join(r.lines) + "\n", g
+    return "\n".join(r.lines) + "\n", g, r.spans
 
 
 def normalise(prog):
